@@ -364,6 +364,192 @@ impl<'this> Decoder<'this> {
     }
 }
 
+/// Verification hooks: the encoder and decoder state machines behind
+/// [`Encoder`] and [`Decoder`], driven with caller-chosen chunk size
+/// limits (the crate's own tests do the same with `TEST_PARAMS`).
+#[cfg(feature = "pkhuong_woodpile_verif")]
+pub mod verif {
+    use super::*;
+
+    fn params(max_initial_size: usize, max_subsequent_size: usize) -> Parameters {
+        assert!(max_initial_size < RADIX);
+        assert!(max_subsequent_size < RADIX * RADIX);
+        Parameters {
+            max_initial_size: NonZeroUsize::new(max_initial_size).expect("must be positive"),
+            max_subsequent_size: NonZeroUsize::new(max_subsequent_size).expect("must be positive"),
+        }
+    }
+
+    /// Like [`Encoder`], with caller-chosen chunk size limits.
+    pub struct LimitEncoder<'this> {
+        state: EncoderState,
+        iovec: OwningIovec<'this>,
+        params: Parameters,
+    }
+
+    impl<'this> LimitEncoder<'this> {
+        /// See [`Encoder::new_from_iovec`].
+        #[must_use]
+        pub fn new_from_iovec(
+            mut iovec: OwningIovec<'this>,
+            max_initial_size: usize,
+            max_subsequent_size: usize,
+        ) -> Self {
+            let params = params(max_initial_size, max_subsequent_size);
+            LimitEncoder {
+                state: EncoderState::new(&mut iovec, params),
+                iovec,
+                params,
+            }
+        }
+
+        /// See [`Encoder::consumer`].
+        #[must_use]
+        pub fn consumer(&mut self) -> ConsumingIovec<'_> {
+            self.iovec.consumer()
+        }
+
+        /// See [`Encoder::encode`].
+        pub fn encode(&mut self, data: &'this [u8]) {
+            let mut state = Default::default();
+            std::mem::swap(&mut state, &mut self.state);
+            self.state = state.encode_borrow(&mut self.iovec, self.params, data);
+        }
+
+        /// See [`Encoder::encode_copy`].
+        pub fn encode_copy(&mut self, data: &[u8]) {
+            let mut state = Default::default();
+            std::mem::swap(&mut state, &mut self.state);
+            self.state = state.encode_copy(&mut self.iovec, self.params, data);
+        }
+
+        /// See [`Encoder::encode_anchored`].
+        pub fn encode_anchored(&mut self, data: AnchoredSlice) {
+            let (_, slice, anchor) = unsafe { data.components() };
+            if slice.is_empty() {
+                return;
+            }
+
+            self.encode(slice);
+            self.iovec.push_anchor(anchor);
+        }
+
+        /// See [`Encoder::read_n`].
+        pub fn read_n(
+            &mut self,
+            reader: impl Read,
+            count: usize,
+            attempts: NonZeroUsize,
+        ) -> std::io::Result<AnchoredSlice> {
+            self.iovec.arena().read_n(reader, count, attempts)
+        }
+
+        /// See [`Encoder::finish`].
+        #[must_use]
+        pub fn finish(mut self) -> OwningIovec<'this> {
+            self.state.terminate(&mut self.iovec);
+            self.iovec
+        }
+
+        /// Returns (max chunk size, bytes in the current chunk, held-back flag).
+        #[must_use]
+        pub fn state_key(&self) -> (usize, usize, bool) {
+            self.state.verif_key()
+        }
+    }
+
+    /// Like [`Decoder`], with caller-chosen chunk size limits.
+    pub struct LimitDecoder<'this> {
+        state: DecoderState,
+        iovec: OwningIovec<'this>,
+        params: Parameters,
+    }
+
+    impl<'this> LimitDecoder<'this> {
+        /// See [`Decoder::new_from_iovec`].
+        #[must_use]
+        pub fn new_from_iovec(
+            iovec: OwningIovec<'this>,
+            max_initial_size: usize,
+            max_subsequent_size: usize,
+        ) -> Self {
+            LimitDecoder {
+                state: DecoderState::new(),
+                iovec,
+                params: params(max_initial_size, max_subsequent_size),
+            }
+        }
+
+        /// See [`Decoder::consumer`].
+        #[must_use]
+        pub fn consumer(&mut self) -> ConsumingIovec<'_> {
+            self.iovec.consumer()
+        }
+
+        /// See [`Decoder::decode`].
+        pub fn decode(&mut self, data: &'this [u8]) -> Result<(), DecodingError> {
+            let mut state = Default::default();
+            std::mem::swap(&mut state, &mut self.state);
+            self.state = state.decode_borrow(&mut self.iovec, self.params, data)?;
+            Ok(())
+        }
+
+        /// See [`Decoder::decode_copy`].
+        pub fn decode_copy(&mut self, data: &[u8]) -> Result<(), DecodingError> {
+            let mut state = Default::default();
+            std::mem::swap(&mut state, &mut self.state);
+            self.state = state.decode_copy(&mut self.iovec, self.params, data)?;
+            Ok(())
+        }
+
+        /// See [`Decoder::decode_anchored`].
+        pub fn decode_anchored(&mut self, data: AnchoredSlice) -> Result<(), DecodingError> {
+            let (_, slice, anchor) = unsafe { data.components() };
+            if slice.is_empty() {
+                return Ok(());
+            }
+
+            let ret = self.decode(slice);
+            self.iovec.push_anchor(anchor);
+            ret
+        }
+
+        /// See [`Decoder::read_n`].
+        pub fn read_n(
+            &mut self,
+            reader: impl Read,
+            count: usize,
+            attempts: NonZeroUsize,
+        ) -> std::io::Result<AnchoredSlice> {
+            self.iovec.arena().read_n(reader, count, attempts)
+        }
+
+        /// See [`Decoder::finish`].
+        pub fn finish(self) -> Result<OwningIovec<'this>, DecodingError> {
+            self.state.terminate()?;
+            Ok(self.iovec)
+        }
+
+        /// Returns a rendering of the decoder's state machine state.
+        #[must_use]
+        pub fn state_key(&self) -> String {
+            format!("{:?}", self.state)
+        }
+    }
+
+    /// Returns the state key of a production [`Encoder`].
+    #[must_use]
+    pub fn encoder_state_key(encoder: &Encoder<'_>) -> (usize, usize, bool) {
+        encoder.state.verif_key()
+    }
+
+    /// Returns the state key of a production [`Decoder`].
+    #[must_use]
+    pub fn decoder_state_key(decoder: &Decoder<'_>) -> String {
+        format!("{:?}", decoder.state)
+    }
+}
+
 #[cfg(test)]
 struct BadReader {
     count: usize, // first invocation is successful.
